@@ -36,9 +36,7 @@ CLAIM = {
             "description, an exception of ts_variables['errors'] -> pf_converged=False -> pf_not_converged raises errors[0] "
             "unless continue_on_divergence; (c) OutputWriter saves one row per step in call order (a failed step: flag "
             "Parameters.powerflow_failed, result row left 0.0; nothing is saved for the step at which the loop raises). "
-            "Multinet couplings are assumed to read input cells only, without chains within a step. Known finding "
-            "(known/C13.json): multinet run_timeseries(continue_on_divergence=True) raises PipeflowNotConverged at a "
-            "diverging gas step (top-level errors tuple of the multinet lacks it).",
+            "Multinet couplings are assumed to read input cells only, without chains within a step.",
     "technique": "Coq proof over hand-written step model + generated wiring table + bit-identical differential",
     "design": "DESIGN.md 4/C13 + design_notes/C13.md",
 }
